@@ -731,3 +731,257 @@ Section Theorems.
       pose proof (need_w_mono_w e s1 9 (head_size F)). unfold need. lia.
   Qed.
 End Theorems.
+
+(* ------------------------------------------------------------------------------------------- *)
+(* build_tx's final guard; add_inputs_from_and_change ends with a successful add_change *)
+
+Section Build.
+  Context {O : Type}.
+  Variable orc : @oracle O.
+  Variable e : env.
+  Hypothesis Hfee : fee_exact e orc.
+
+  Lemma askT_inv x v s s' (o o' : O) : askT orc x s o = mkOut (Ok v) s' o' -> s' = s.
+  Proof. unfold askT. intros H; inversion H; auto. Qed.
+
+  Lemma validate_fee_spec u s s' (o o' : O) :
+    validate_fee orc s o = mkOut (Ok u) s' o' ->
+    s' = s /\ exists F, get_fee_if_set s = Some F /\ need e s F <= F.
+  Proof.
+    unfold validate_fee. intros H. minv H as sg s1 o1 H1 H2. apply get_inv in H1 as (-> & -> & ->).
+    destruct (get_fee_if_set s) as [F|] eqn:EF; [|apply lift_inv in H2 as (? & _); discriminate].
+    minv H2 as mf s1 o1 H3 H4. apply (askF_inv orc e Hfee) in H3 as (Hm & ->).
+    destruct (N.ltb_spec F mf); [apply lift_inv in H4 as (? & _); discriminate|].
+    apply ret_inv in H4 as (_ & -> & _). split; auto.
+    apply min_fee_model_ok in Hm as (f & Hf & ->). rewrite EF in Hf. inversion Hf; subst. eauto.
+  Qed.
+
+  (* C06_validate *)
+  Theorem build_tx_validates body s s' (o o' : O) :
+    build_tx orc s o = mkOut (Ok body) s' o' ->
+    exists F, get_fee_if_set s = Some F /\ b_fee body = F /\ need e s F <= F.
+  Proof.
+    unfold build_tx. intros H. minv H as u s1 o1 H1 H2. apply validate_fee_spec in H1 as (-> & F & HF & Hn).
+    minv H2 as sg s1 o2 H3 H4. apply get_inv in H3 as (-> & -> & ->).
+    minv H4 as u2 s1 o3 H5 H6. apply lift_inv in H5 as (_ & -> & ->).
+    unfold build in H6. minv H6 as sg s1 o4 H7 H8. apply get_inv in H7 as (-> & -> & ->).
+    rewrite HF in H8. minv H8 as u3 s1 o5 H9 H10.
+    assert (s1 = s) as ->.
+    { destruct (s_mint s); [|apply ret_inv in H9; tauto].
+      minv H9 as u4 s2 o6 G1 G2. apply lift_inv in G1 as (_ & -> & ->). apply ret_inv in G2; tauto. }
+    minv H10 as big s1 o6 H11 H12. apply askT_inv in H11. subst s1.
+    destruct big; [apply lift_inv in H12 as (? & _); discriminate|].
+    apply ret_inv in H12 as (-> & -> & ->). exists F. repeat split; auto.
+    unfold body_of; cbn [b_fee]. rewrite HF. reflexivity.
+  Qed.
+
+  Lemma catch_some {A} (m : @M O A) v s s' (o o' : O) :
+    catch m s o = mkOut (Ok (Some v)) s' o' -> m s o = mkOut (Ok v) s' o'.
+  Proof.
+    unfold catch. destruct (m s o) as [r s1 o1]; cbn. destruct r; intros H; inversion H; reflexivity.
+  Qed.
+
+  Lemma retry_loop_ends fuel addr extra l : forall b s s' (o o' : O),
+    retry_loop orc fuel addr extra l s o = mkOut (Ok (Some b)) s' o' ->
+    exists st ot, add_change orc fuel addr extra st ot = mkOut (Ok b) s' o'.
+  Proof.
+    induction l as [|x l IH]; intros b s s' o o' H; cbn [retry_loop] in H.
+    - apply ret_inv in H as (? & _); discriminate.
+    - minv H as u s1 o1 H1 H2. minv H2 as res s2 o2 H3 H4.
+      destruct res as [v|].
+      + apply ret_inv in H4 as (Hv & -> & ->). inversion Hv; subst. apply catch_some in H3. eauto.
+      + eapply IH; eauto.
+  Qed.
+
+  (* the state add_inputs_from_and_change leaves on success is the state a successful add_change left *)
+  Theorem select_and_change_ends fuel utxos addr extra b s s' (o o' : O) :
+    add_inputs_from_and_change orc fuel utxos addr extra s o = mkOut (Ok b) s' o' ->
+    exists st ot, add_change orc fuel addr extra st ot = mkOut (Ok b) s' o'.
+  Proof.
+    unfold add_inputs_from_and_change. intros H.
+    minv H as sg s1 o1 H1 H2. minv H2 as sel s2 o2 H3 H4. minv H4 as u s3 o3 H5 H6.
+    destruct (negb (snd sel)); [apply lift_inv in H6 as (? & _); discriminate|].
+    minv H6 as sg2 s4 o4 H7 H8.
+    destruct (s_fee sg2); [apply lift_inv in H8 as (? & _); discriminate|].
+    minv H8 as res s5 o5 H9 H10.
+    destruct res as [v|].
+    - apply ret_inv in H10 as (-> & -> & ->). apply catch_some in H9. eauto.
+    - minv H10 as sg3 s6 o6 H11 H12. minv H12 as r s7 o7 H13 H14.
+      destruct r as [v|]; [|apply lift_inv in H14 as (? & _); discriminate].
+      apply ret_inv in H14 as (-> & -> & ->). eapply retry_loop_ends; eauto.
+  Qed.
+End Build.
+
+(* ------------------------------------------------------------------------------------------- *)
+(* C06_telescope: sequential fee_for_output increments add up to the difference of the estimates, including
+   the growth of the outputs array head (23 -> 24, 255 -> 256 outputs) *)
+
+Definition add_out (x : output) (s : state) : state := set_s_outputs (s_outputs s ++ [x]) s.
+Definition add_outs (l : list output) (s : state) : state := set_s_outputs (s_outputs s ++ l) s.
+
+Fixpoint seq_fees (e : env) (w : N) (s : state) (l : list output) : N :=
+  match l with
+  | [] => 0
+  | x :: r => (need_w e (add_out x s) w - need_w e s w) + seq_fees e w (add_out x s) r
+  end.
+
+Lemma need_w_add_outs e s l w :
+  need_w e (add_outs l s) w + e_a e * head_size (lenN (s_outputs s))
+  = need_w e s w + e_a e * (sumN (map (out_size e) l) + head_size (lenN (s_outputs s) + lenN l)).
+Proof.
+  unfold add_outs, need_w. rewrite core_set_outputs, outputs_set_outputs.
+  unfold outs_size. rewrite map_app, sumN_app, lenN_app. nia.
+Qed.
+
+Lemma add_outs_cons x l s : add_outs (x :: l) s = add_outs l (add_out x s).
+Proof.
+  unfold add_outs, add_out. rewrite outputs_set_outputs, set_outputs_set_outputs, <- app_assoc. reflexivity.
+Qed.
+
+Lemma need_w_add_out_le e s x w : need_w e s w <= need_w e (add_out x s) w.
+Proof.
+  unfold add_out. rewrite <- (set_outputs_same s) at 1. apply need_w_mono_outs. apply outs_size_app_le.
+Qed.
+
+Theorem seq_fees_telescope e w l : forall s,
+  seq_fees e w s l = need_w e (add_outs l s) w - need_w e s w.
+Proof.
+  induction l as [|x l IH]; intros s; cbn [seq_fees].
+  - unfold add_outs. rewrite app_nil_r, set_outputs_same. lia.
+  - rewrite IH, add_outs_cons.
+    pose proof (need_w_add_out_le e s x w).
+    assert (need_w e (add_out x s) w <= need_w e (add_outs l (add_out x s)) w).
+    { unfold add_outs. rewrite <- (set_outputs_same (add_out x s)) at 1. apply need_w_mono_outs, outs_size_app_le. }
+    lia.
+Qed.
+
+Theorem seq_fees_closed_form e w l s :
+  seq_fees e w s l + e_a e * head_size (lenN (s_outputs s))
+  = e_a e * (sumN (map (out_size e) l) + head_size (lenN (s_outputs s) + lenN l)).
+Proof.
+  rewrite seq_fees_telescope. pose proof (need_w_add_outs e s l w).
+  assert (need_w e s w <= need_w e (add_outs l s) w).
+  { unfold add_outs. rewrite <- (set_outputs_same s) at 1. apply need_w_mono_outs, outs_size_app_le. }
+  lia.
+Qed.
+
+(* without a fee request, fee_for_output IS the increment of the estimate (fee field of one byte: 0) *)
+Lemma fee_for_output_unspecified {O} (orc : @oracle O) e (Hfee : fee_exact e orc) x d s s' (o o' : O) :
+  s_fee_request s = FeeUnspecified ->
+  fee_for_output orc x s o = mkOut (Ok d) s' o' ->
+  d = need_w e (add_out x s) 1 - need_w e s 1.
+Proof.
+  intros Hr H. apply (fee_for_output_spec orc e Hfee) in H. cbn zeta in H. rewrite Hr in H.
+  cbn [get_new_fee fld0] in H. change (head_size 0) with 1 in H. unfold add_out. tauto.
+Qed.
+
+(* ------------------------------------------------------------------------------------------- *)
+(* when the slack is enough: the arithmetic of the widths *)
+
+(* only the last output's coin grew *)
+Lemma slack_from_widths e l x x' F P :
+  e_obase e (o_addr x') (o_extra x') = e_obase e (o_addr x) (o_extra x) ->
+  value_extra (multiasset_of (o_amount x')) = value_extra (multiasset_of (o_amount x)) ->
+  head_size (coin (o_amount x')) + head_size F <= head_size (coin (o_amount x)) + P ->
+  outs_size e (l ++ [x']) + head_size F <= outs_size e (l ++ [x]) + P.
+Proof.
+  intros Hb Hv Hw. unfold outs_size. rewrite !map_app, !sumN_app, !lenN_app. cbn [map].
+  unfold sumN at 2 4; cbn [fold_right]. unfold lenN at 2 4; cbn [length]. unfold out_size, value_size. rewrite Hb, Hv. lia.
+Qed.
+
+(* a coin priced at 2^16 or more (a 5-byte integer at least) and a fee below 2^32 (5 bytes at most): whatever the
+   top-up makes of the coin fits the 9-byte placeholder *)
+Lemma widths_mainnet c c' F : 65536 <= c -> F < 4294967296 -> head_size c' + head_size F <= head_size c + 9.
+Proof.
+  intros Hc HF. pose proof (head_size_bounds c').
+  assert (5 <= head_size c).
+  { unfold head_size. repeat match goal with |- context [N.ltb ?a ?b] => destruct (N.ltb_spec a b); try lia end. }
+  assert (head_size F <= 5).
+  { unfold head_size. repeat match goal with |- context [N.ltb ?a ?b] => destruct (N.ltb_spec a b); try lia end. }
+  lia.
+Qed.
+
+(* ------------------------------------------------------------------------------------------- *)
+(* witnesses: the premises are satisfiable, and the slack premise cannot be dropped *)
+
+Lemma sufficientb_spec e s : sufficientb e s = true <-> sufficient e s.
+Proof.
+  unfold sufficientb, sufficient. split.
+  - destruct (s_fee s) as [F|]; [|discriminate]. intros H. exists F. split; auto. apply N.leb_le; auto.
+  - intros (F & -> & H). apply N.leb_le; auto.
+Qed.
+
+Lemma size_oracle_fee_exact e cpb mv : fee_exact e (size_oracle e cpb mv).
+Proof. intros st o. reflexivity. Qed.
+
+Module Witness.
+  Definition pol : bytes := repeat 1 28.
+  Definition tok : bytes := [116; 111; 107].
+  Definition cfg := mkConfig 500000000 2000000 false false.
+  (* one key input (enterprise address), no requested output, change to an enterprise address (id 1; the fake
+     address of the min-ADA calculator is id 0, a 57-byte base address): K = 154 bytes, as measured on the
+     implementation *)
+  Definition obase (a _ : N) : N := if a =? 0 then 60 else 32.
+  Definition e_main : env := mkEnv 44 155381 16384 (fun _ => 154) obase (fun _ => Ok 0) (fun _ => Ok 0).
+  (* 5000 ADA and 5 tokens of one asset *)
+  Definition s_tok : state := set_s_inputs [(1, mkValue 5000000000 (Some [(pol, [(tok, 5)])]))] (new_state cfg).
+  (* a 1.4 kB transaction (metadata), linear fee 44 * size: the estimate is just below 2^16 *)
+  Definition e_nl : env := mkEnv 44 0 16384 (fun _ => 1449) obase (fun _ => Ok 0) (fun _ => Ok 0).
+  Definition s_nl : state := set_s_fee_request (FeeNotLess 65535) (set_s_inputs [(1, mkValue 5000000 None)] (new_state cfg)).
+End Witness.
+Import Witness.
+
+(* mainnet parameters (4310 lovelace per byte): the premises of the sufficiency theorem hold, with zero margin:
+   fee 165897 = 44 * 239 + 155381 *)
+Example sufficient_premises_mainnet :
+  let orc := size_oracle e_main 4310 5000 in
+  let r := add_change orc 10 1 0 s_tok tt in
+  out_res r = Ok true /\ s_fee (out_st r) = Some 165897 /\ s_fee_request s_tok = FeeUnspecified /\
+  slack_ok e_main orc 10 1 0 s_tok tt = true /\ need e_main (out_st r) 165897 = 165897.
+Proof. vm_compute. repeat split. Qed.
+
+(* 100 lovelace per byte: the change output is priced with a 3-byte coin and topped up to a 9-byte one; the
+   9-byte fee placeholder only covers 4 of the 6 extra bytes: fee 165809 < 165897 *)
+Theorem sufficient_refuted :
+  exists (e : env) (orc : @oracle unit) fuel addr extra s b s' o',
+    fee_exact e orc /\ s_fee_request s = FeeUnspecified /\
+    add_change orc fuel addr extra s tt = mkOut (Ok b) s' o' /\
+    slack_ok e orc fuel addr extra s tt = false /\ ~ sufficient e s'.
+Proof.
+  exists e_main, (size_oracle e_main 100 5000), 10%nat, 1, 0, s_tok.
+  remember (add_change (size_oracle e_main 100 5000) 10 1 0 s_tok tt) as r eqn:Er.
+  exists true, (out_st r), (out_orc r).
+  split; [apply size_oracle_fee_exact|]. split; [reflexivity|].
+  split; [rewrite Er; vm_compute; reflexivity|].
+  split; [vm_compute; reflexivity|].
+  intros H. apply sufficientb_spec in H. rewrite Er in H. vm_compute in H. discriminate.
+Qed.
+
+(* a requested minimal fee of 65535 just above the estimate (binding), the fee ends at 65560: its field is 5 bytes
+   wide but was priced with the 3 bytes of 65535: fee 65560 < 65648 *)
+Theorem notless_refuted :
+  exists (e : env) (orc : @oracle unit) fuel addr extra s r b s' o',
+    fee_exact e orc /\ s_fee_request s = FeeNotLess r /\ binding e s = true /\
+    add_change orc fuel addr extra s tt = mkOut (Ok b) s' o' /\
+    slack_ok e orc fuel addr extra s tt = false /\ ~ sufficient e s'.
+Proof.
+  exists e_nl, (size_oracle e_nl 4310 5000), 10%nat, 1, 0, s_nl, 65535.
+  remember (add_change (size_oracle e_nl 4310 5000) 10 1 0 s_nl tt) as r eqn:Er.
+  exists true, (out_st r), (out_orc r).
+  split; [apply size_oracle_fee_exact|]. split; [reflexivity|]. split; [vm_compute; reflexivity|].
+  split; [rewrite Er; vm_compute; reflexivity|].
+  split; [vm_compute; reflexivity|].
+  intros H. apply sufficientb_spec in H. rewrite Er in H. vm_compute in H. discriminate.
+Qed.
+
+(* premises of the other theorems are satisfiable *)
+Example build_premises :
+  let orc := size_oracle e_main 4310 5000 in
+  let r := add_change orc 10 1 0 s_tok tt in
+  exists body, out_res (build_tx orc (out_st r) tt) = Ok body /\ b_fee body = 165897.
+Proof. vm_compute. eexists. split; reflexivity. Qed.
+
+Example policy_premises :
+  let orc := size_oracle e_nl 4310 5000 in
+  out_res (add_change orc 10 1 0 s_nl tt) = Ok true.
+Proof. vm_compute. reflexivity. Qed.
